@@ -86,6 +86,7 @@ func (t *tr) ev(e ast.Expr) Term {
 		t.litOrd++
 		name := fmt.Sprintf("lit$%s$%d", t.u.Key, t.litIndex(x))
 		t.V.declConst(name, SInt)
+		t.assume(neq(Term{S: sym(name), Sort: SInt}, intLit(0))) // a function literal is never nil
 		return Term{S: sym(name), Sort: SInt, T: T}
 	case *ast.UnaryExpr:
 		switch x.Op {
@@ -211,7 +212,9 @@ func (t *tr) evIdent(x *ast.Ident) Term {
 		v := t.localVar(ob)
 		return t.read(v)
 	case *types.Func:
-		return t.funcValue(ob)
+		fv := t.funcValue(ob)
+		t.assume(neq(fv, intLit(0))) // a declared function is never nil
+		return fv
 	case *types.Const:
 		if r, ok := t.constTerm(ob.Val(), ob.Type()); ok {
 			return r
